@@ -1,9 +1,18 @@
 /- Driver for C08: tunnel packet production; full-state comparison + spec monitors. -/
 import BandVerif.Common.Driver
 import BandVerif.Model.Tunnel
+import BandVerif.Model.Encoding
 import BandVerif.Generated.Errors
 
 open Lean BandVerif BandVerif.Tunnel
+
+def hexVal (c : Char) : Nat :=
+  if '0' ≤ c ∧ c ≤ '9' then c.toNat - '0'.toNat else if 'a' ≤ c ∧ c ≤ 'f' then c.toNat - 'a'.toNat + 10
+  else if 'A' ≤ c ∧ c ≤ 'F' then c.toNat - 'A'.toNat + 10 else 0
+def ofHexGo : List Char → List Nat
+  | a :: b :: rest => (hexVal a * 16 + hexVal b) :: ofHexGo rest
+  | _ => []
+def ofHex (s : String) : List Nat := ofHexGo s.toList
 
 structure St where
   s : State
@@ -83,6 +92,23 @@ def step (st : St) (j : Json) : Except String (St × Json × List Fired) := do
     | _ => []
   if !noRc.isEmpty then
     fired := fired ++ [{ name := "packet_stored_without_route_receipt", detail := jl noRc }]
+  -- what the signing group was asked to sign for a stored TSS packet decodes to THAT packet: its sequence number, its
+  -- creation time and as many prices (message = originator hash 32 ‖ time 8 ‖ signing id 8 ‖ selector 4 ‖ tag 4 ‖ ABI)
+  let signed := match (j.getObjVal? "obs").toOption.bind (fun o => (o.getObjVal? "signed").toOption) with
+    | some (.arr a) => a.toList
+    | _ => []
+  for e in signed do
+    match e with
+    | .arr #[tid, q, ca, np, m] =>
+      let msg := ofHex (← asStr m)
+      match BandVerif.Enc.decPacket (msg.drop 56) with
+      | some (dseq, dps, dts) =>
+        if dseq != (← asNat q) || dts != (← asInt ca) || dps.length != (← asNat np) then
+          fired := fired ++ [{ name := "signed_content_is_not_the_stored_packet", detail := mkObj [("tunnel", tid), ("sequence", q),
+            ("signedSequence", jn dseq), ("signedTime", ji dts), ("signedPrices", jn dps.length)] }]
+      | none =>
+        fired := fired ++ [{ name := "signed_content_is_not_the_stored_packet", detail := mkObj [("tunnel", tid), ("sequence", q), ("undecodable", jb true)] }]
+    | _ => throw "bad signed entry"
   match op with
   | "setup" =>
     -- harness bookkeeping: a tunnel as created/activated/funded through the real messages
@@ -102,6 +128,21 @@ def step (st : St) (j : Json) : Except String (St × Json × List Fired) := do
     let id ← jnat j "id"
     let s' := { s with payerBal := fun i => if i = id then s.payerBal id + (jnat j "amt").toOption.getD 0 else s.payerBal i }
     pure ({ st with s := s' }, dump { st with s := s' }, [])
+  | "setActive" =>
+    -- MsgActivate / MsgDeactivate by the creator (the gate itself is C17's): an accepted switch changes the flag and the
+    -- index (store order = ascending id) and NOTHING else — in particular not the time of the last full send
+    let id ← jnat j "id"
+    let on ← jbool j "active"
+    let ierr := (jstr out "err").toOption.getD ""
+    let s' := match s.tunnels id with
+      | some t =>
+        if ierr != "" then s
+        else { s with tunnels := fun i => if i = id then some { t with isActive := on } else s.tunnels i,
+                      activeIdx := if on then ((s.activeIdx.filter (· ≠ id)) ++ [id]).toArray.qsort (· < ·) |>.toList
+                                   else s.activeIdx.filter (· ≠ id) }
+      | none => s
+    let st' := { st with s := s' }
+    pure (st', (dump st').setObjVal! "err" (js ierr), [])
   | "fees" =>
     let s' := { s with baseFee := ← jnat j "base", routeFee := ← jnat j "route" }
     pure ({ st with s := s' }, dump { st with s := s' }, [])
@@ -111,6 +152,12 @@ def step (st : St) (j : Json) : Except String (St × Json × List Fired) := do
     let failed ← jnatList j "routeFailed"
     let s' := endBlock feeds now (fun id => !failed.contains id) s.activeIdx s
     let mut lastFull := st.lastFull
+    -- a due packet is refused only for a fault of its route (no group, too few nonces, fee above the limit, no channel)
+    match j.getObjVal? "unexplainedFailures" with
+    | .ok (.arr xs) =>
+      if !xs.isEmpty then
+        fired := fired ++ [{ name := "due_packet_refused_without_a_route_fault", detail := Json.arr xs }]
+    | _ => pure ()
     -- spec monitors, per tunnel, on the implementation's post-state
     let itun ← jarr out "tunnels"
     for i in List.range st.n do
